@@ -11,13 +11,13 @@ ASSUME = [
 
 def run(tier: str, seed: int):
     if tier == 'quick':
-        cfgs = list(F.fam_shapes(1, 4, batch=2)) + list(F.fam_variants(3, batch=2))
-        serial = list(F.fam_shapes(1, 3, batch=1)) + list(F.fam_variants(2)) + list(F.fam_post_init(2))
+        cfgs = list(F.fam_shapes(1, 4, batch=2)) + list(F.fam_variants(3, batch=2)) + list(F.fam_inherit(3))
+        serial = list(F.fam_shapes(1, 3, batch=1)) + list(F.fam_variants(2)) + list(F.fam_post_init(2)) + list(F.fam_inherit(2))
         rule = ('all DAG shapes n<=4 x every requested subset x every pre-cached subset of its closure, batch<=2, '
                 'every completion order; n<=3 x placements x duplication x type assignments x request '
                 'orders/duplicates; real SerialRunner slice n<=3')
         e3c = (list(F.fam_e3(F.fam_shapes(1, 3), workers=(1, 2), liveness=False)) + list(F.fam_e3(F.fam_shapes(3, 3, pre=False), workers=(None,)))
-               + list(F.fam_e3(F.fam_variants(2), workers=(2,), liveness=False)) + list(F.fam_e3(F.fam_post_init(2), workers=(2,), liveness=False))
+               + list(F.fam_e3(F.fam_variants(2), workers=(2,), liveness=False)) + list(F.fam_e3(list(F.fam_post_init(2)) + list(F.fam_inherit(2)), workers=(2,), liveness=False))
                # default displays on (progress bars, task monitor with a display smaller than the number of workers)
                + list(F.fam_e3(F.fam_shapes(2, 3, pre=False), workers=(2,), backends=('fork',), liveness=False, monitor=True)))
     else:
